@@ -127,6 +127,10 @@ func (c *Decoder) decodeErrorStatement() (*ast.ErrorStatement, error) {
 	var err error
 	stmt := &ast.ErrorStatement{}
 
+	// Both the status code and the argument are optional ("error;")
+	if !isExpressionFrame(c.peekFrame()) {
+		return stmt, nil
+	}
 	if stmt.Code, err = c.decodeExpression(c.nextFrame()); err != nil {
 		return nil, errors.WithStack(err)
 	}
